@@ -1,6 +1,6 @@
 (* C10 -- property theorems only.  Proofs live in C10/Proofs1.v, Proofs2.v. *)
 From Coq Require Import NArith List Permutation.
-From DV Require Import Base.Outcome C10.Gen C10.Model C10.Proofs1 C10.Proofs2 C10.Proofs3.
+From DV Require Import Base.Outcome C10.Gen C10.Model C10.Proofs1 C10.Proofs2 C10.Proofs3 C10.Proofs4.
 Import ListNotations.
 Local Open Scope N_scope.
 
@@ -9,23 +9,24 @@ Theorem C10_axfr_fidelity : forall s ks ms cs z0,
   exists us st, run None ms = (us, SDone) /\ c10_apply z0 us = Ok st /\
     u_fin st = true /\ u_visible st = Soa s :: rev (map Other ks) /\
     Permutation (u_visible st) (Soa s :: map Other ks).
-Proof. exact axfr_fidelity. Qed.
+Proof. exact (axfr_fidelity updater_checks_batch_soa). Qed.
 Print Assumptions C10_axfr_fidelity.
 
 Theorem C10_ixfr_fidelity : forall snew ds old new ms cs,
   (forall d, In d ds -> d_old d <> snew) ->
   chain_rel old ds new -> (forall s, In (Soa s) new <-> s = snew) ->
+  chain_ok updater_checks_batch_soa ds old ->
   packs 251 ms cs -> concat cs = ixfr_seq snew ds -> ~ lone_soa_first Ixfr cs ->
   exists us st, run None ms = (us, SDone) /\ c10_apply old us = Ok st /\
     u_fin st = true /\ zeq (u_visible st) new.
-Proof. exact ixfr_fidelity. Qed.
+Proof. exact (ixfr_fidelity updater_checks_batch_soa). Qed.
 Print Assumptions C10_ixfr_fidelity.
 
 Theorem C10_fallback_fidelity : forall s k ks ms cs z0,
   packs 251 ms cs -> concat cs = axfr_seq s (k :: ks) -> ~ lone_soa_first Ixfr cs ->
   exists us st, run None ms = (us, SDone) /\ c10_apply z0 us = Ok st /\
     u_fin st = true /\ Permutation (u_visible st) (Soa s :: map Other (k :: ks)).
-Proof. exact fallback_fidelity. Qed.
+Proof. exact (fallback_fidelity updater_checks_batch_soa). Qed.
 Print Assumptions C10_fallback_fidelity.
 
 Theorem C10_split_irrelevant : forall ty ms1 cs1 ms2 cs2,
@@ -49,7 +50,7 @@ Proof. exact run_no_panic. Qed.
 Print Assumptions C10_reject_total_interpreter.
 
 Theorem C10_reject_total_updater : forall us z0, no_panic (c10_apply z0 us).
-Proof. intros us z0. apply u_apply_all_no_panic. intros _. split; reflexivity. Qed.
+Proof. intros us z0. apply (u_apply_all_no_panic updater_checks_batch_soa). intros _. split; reflexivity. Qed.
 Print Assumptions C10_reject_total_updater.
 
 Theorem C10_reject_bad_header : forall st m,
@@ -81,9 +82,9 @@ Proof. exact run_after_done. Qed.
 Print Assumptions C10_reject_after_done.
 
 Theorem C10_no_partial_visible : forall us st st',
-  u_apply_all us st = Ok st' -> forallb (fun u => negb (is_commit u)) us = true ->
+  u_apply_all updater_checks_batch_soa us st = Ok st' -> forallb (fun u => negb (is_commit u)) us = true ->
   u_visible st' = u_visible st.
-Proof. exact u_apply_all_visible. Qed.
+Proof. exact (u_apply_all_visible updater_checks_batch_soa). Qed.
 Print Assumptions C10_no_partial_visible.
 
 Theorem C10_reject_truncated_axfr : forall ty s ks ms cs z0,
@@ -91,7 +92,7 @@ Theorem C10_reject_truncated_axfr : forall ty s ks ms cs z0,
   (ty = Ixfr -> ks <> []) -> ~ lone_soa_first ty cs ->
   exists us st, run None ms = (us, SIncomplete) /\ c10_apply z0 us = Ok st /\
     u_fin st = false /\ u_visible st = z0.
-Proof. exact reject_truncated_axfr. Qed.
+Proof. exact (reject_truncated_axfr updater_checks_batch_soa). Qed.
 Print Assumptions C10_reject_truncated_axfr.
 
 Theorem C10_reject_mismatched_close : forall ty s s' ks ms cs z0,
@@ -100,7 +101,7 @@ Theorem C10_reject_mismatched_close : forall ty s s' ks ms cs z0,
   (ty = Ixfr -> ks <> []) -> ~ lone_soa_first ty cs ->
   exists us st, run None ms = (us, SIncomplete) /\ c10_apply z0 us = Ok st /\
     u_fin st = false /\ u_visible st = z0.
-Proof. exact reject_mismatched_close. Qed.
+Proof. exact (reject_mismatched_close updater_checks_batch_soa). Qed.
 Print Assumptions C10_reject_mismatched_close.
 
 Theorem C10_axfr_drop_middle_undetectable : forall s ks1 ks2 ks3 ms cs z0,
@@ -108,7 +109,7 @@ Theorem C10_axfr_drop_middle_undetectable : forall s ks1 ks2 ks3 ms cs z0,
   exists us st, run None ms = (us, SDone) /\ c10_apply z0 us = Ok st /\
     Permutation (u_visible st) (Soa s :: map Other (ks1 ++ ks3)) /\
     (ks2 <> [] -> ~ Permutation (u_visible st) (Soa s :: map Other (ks1 ++ ks2 ++ ks3))).
-Proof. exact axfr_drop_middle_undetectable. Qed.
+Proof. exact (axfr_drop_middle_undetectable updater_checks_batch_soa). Qed.
 Print Assumptions C10_axfr_drop_middle_undetectable.
 
 Theorem C10_diff_applies_refuted_ttl_change : exists pub ops, ~ diff_applies pub ops.
@@ -132,22 +133,74 @@ Proof. exact single_update_diff_applies. Qed.
 Print Assumptions C10_single_update_diff_applies.
 
 Theorem C10_abort_then_axfr : forall us1 z0 st1 s ks,
-  u_apply_all us1 (u_start z0) = Ok st1 ->
+  u_apply_all updater_checks_batch_soa us1 (u_start z0) = Ok st1 ->
   c10_transfers z0 [us1; axfr_upds s ks] = Ok [u_visible st1; Soa s :: rev (map Other ks)].
-Proof. exact abort_then_axfr. Qed.
+Proof. exact (abort_then_axfr updater_checks_batch_soa). Qed.
 Print Assumptions C10_abort_then_axfr.
 
 Theorem C10_abort_then_ixfr : forall us1 z0 st1 snew ds,
-  u_apply_all us1 (u_start z0) = Ok st1 ->
+  u_apply_all updater_checks_batch_soa us1 (u_start z0) = Ok st1 -> chain_ok updater_checks_batch_soa ds (u_visible st1) ->
   c10_transfers z0 [us1; ixfr_upds snew ds] =
   Ok [u_visible st1;
       z_update_soa snew (fold_left (fun z d => apply_diff_z d z) ds (u_visible st1))].
-Proof. exact abort_then_ixfr. Qed.
+Proof. exact (abort_then_ixfr updater_checks_batch_soa). Qed.
 Print Assumptions C10_abort_then_ixfr.
 
 Theorem C10_abort_invisible : forall us1 z0 st1,
-  u_apply_all us1 (u_start z0) = Ok st1 ->
+  u_apply_all updater_checks_batch_soa us1 (u_start z0) = Ok st1 ->
   forallb (fun u => negb (is_commit u)) us1 = true ->
   c10_transfers z0 [us1] = Ok [z0].
-Proof. exact abort_invisible. Qed.
+Proof. exact (abort_invisible updater_checks_batch_soa). Qed.
 Print Assumptions C10_abort_invisible.
+
+Theorem C10_ixfr_prefix_visible : forall snew ds old us1 us2,
+  chain_ok updater_checks_batch_soa ds old ->
+  us1 ++ us2 = ixfr_upds snew ds ->
+  exists st, u_apply_all updater_checks_batch_soa us1 (u_start old) = Ok st /\
+    (In (u_visible st) (scan ds old) \/ (us2 = [] /\ u_visible st = final_zone snew ds old)) /\
+    (us2 <> [] -> u_fin st = false).
+Proof. exact (ixfr_prefix_visible updater_checks_batch_soa). Qed.
+Print Assumptions C10_ixfr_prefix_visible.
+
+Theorem C10_reject_truncated_ixfr : forall snew ds old ms cs rest,
+  (forall d, In d ds -> d_old d <> snew) -> chain_ok updater_checks_batch_soa ds old ->
+  packs 251 ms cs -> concat cs ++ rest = ixfr_seq snew ds -> rest <> [] ->
+  ~ lone_soa_first Ixfr cs ->
+  snd (run None ms) <> SDone /\
+  exists st, c10_apply old (fst (run None ms)) = Ok st /\ u_fin st = false /\
+    In (u_visible st) (scan ds old).
+Proof. exact (reject_truncated_ixfr updater_checks_batch_soa). Qed.
+Print Assumptions C10_reject_truncated_ixfr.
+
+Theorem C10_reject_mismatched_close_ixfr : forall snew s' ds old ms cs,
+  s' <> snew -> (forall d, In d ds -> d_old d <> snew) -> chain_ok updater_checks_batch_soa ds old ->
+  packs 251 ms cs -> concat cs = Soa snew :: concat (map diff_seq ds) ++ [Soa s'] ->
+  ~ lone_soa_first Ixfr cs ->
+  run None ms = (concat (map diff_upds ds) ++ [UBeginDel s'], SIncomplete) /\
+  (exists st, c10_apply old (concat (map diff_upds ds)) = Ok st /\
+     u_fin st = false /\ In (u_working st) (scan ds old)) /\
+  (forall st, c10_apply old (concat (map diff_upds ds) ++ [UBeginDel s']) = Ok st ->
+     u_fin st = false /\ In (u_visible st) (scan ds old)).
+Proof. exact (reject_mismatched_close_ixfr updater_checks_batch_soa). Qed.
+Print Assumptions C10_reject_mismatched_close_ixfr.
+
+(* SOA serials that chain satisfy the updater's batch check, present or not *)
+Theorem C10_soa_chain_ok : forall ds w cur,
+  z_first_soa w = Some cur -> soa_chain cur ds -> chain_ok updater_checks_batch_soa ds w.
+Proof. exact (soa_chain_ok updater_checks_batch_soa). Qed.
+Print Assumptions C10_soa_chain_ok.
+
+Theorem C10_unchained_diff_accepted_refuted :
+  packs 251 unchained_witness_msgs [[Soa 64; Soa 62; Other 5; Other 11; Soa 64; Other 12; Soa 64]] /\
+  ~ soa_chain 60 [mkDiff 62 [5; 11] 64 [12]] /\
+  exists us st, run None unchained_witness_msgs = (us, SDone) /\
+    u_apply_all false us (u_start unchained_witness_old) = Ok st /\ u_fin st = true /\
+    z_first_soa (u_visible st) = Some 64.
+Proof. exact unchained_diff_accepted_refuted. Qed.
+Print Assumptions C10_unchained_diff_accepted_refuted.
+
+Theorem C10_unchained_batch_rejected : forall s w v rest,
+  batch_soa_ok true s w = false ->
+  u_apply_all true (UBeginDel s :: rest) (mkU v w true true false) = Err E_SoaMismatch.
+Proof. exact unchained_batch_rejected. Qed.
+Print Assumptions C10_unchained_batch_rejected.
